@@ -41,7 +41,7 @@ pub fn mode_scenarios(quick: bool) -> Vec<Scenario> {
 
 pub fn other_scenarios() -> Vec<Scenario> {
     let mut v = vec![];
-    let mtimes: Vec<(i64, u32)> = vec![(0, 0), (0, 1), (978_307_200, 123_456_789), (1_500_000_000, 999_999_999), (4_102_444_800, 5), (-1, 0), (-86_400, 500_000_000)];
+    let mtimes: Vec<(i64, u32)> = vec![(0, 0), (0, 1), (978_307_200, 123_456_789), (1_500_000_000, 999_999_999), (4_102_444_800, 5), (-1, 0), (-86_400, 500_000_000), (4_400_000_000, 1), (8_000_000_000, 999_999_999), (-2_000_000_000, 999_999_999)];
     let prior = || Entry::file("g", "previous destination content, longer").mode(0o604).mtime(1_100_000_000, 77).xattr("user.old", "stale").owner(7, 8);
     for d in drivers() {
         for (i, mt) in mtimes.iter().enumerate() {
